@@ -606,6 +606,27 @@ def make_random(rng, n):
                 new = Param(rng.choice(free) if free and rng.random() < 0.5 else "zdep%d" % k, wrap(t))
                 e.params.insert(0, new)
             new.parent = e
+            # a twin on the other side of the arrow with the same identifier and its own deprecated type: two lints of one kind
+            # whose elements have the same scoped name; a suppression on one of them says nothing about the other
+            twin = None
+            if rng.random() < 0.5:
+                in_returns = any(x is new for x in e.returns)
+                if in_returns and new.id not in [p.id for p in e.params if p is not new]:
+                    name2, t2 = dep_ref()
+                    twin = Param(new.id, wrap(t2))
+                    e.params.insert(0, twin)
+                elif not in_returns and e.return_tuple and len(e.returns) >= 2 and new.id not in [r.id for r in e.returns]:
+                    name2, t2 = dep_ref()
+                    twin = Param(new.id, wrap(t2))
+                    e.returns.insert(0, twin)
+            if twin is not None:
+                twin.parent = e
+                twin.module = e.module
+                lints.append({"kind": "Deprecated", "entity": twin, "file": fi, "marker": name2})
+                r = rng.random()
+                if r < 0.6:
+                    which = twin if r < 0.3 else new
+                    which.attrs = list(which.attrs) + [Attr("allow", [rng.choice(["Deprecated", "All"])])]
         elif isinstance(e, Enumerator) and e.fields is not None:
             name, t = dep_ref()
             new = Field("zdep%d" % k, wrap(t))
